@@ -1,5 +1,3 @@
-CONSTANTS
-  ObsTol = 4096
 INIT TInit
 NEXT TNext
 INVARIANT Verdict
